@@ -37,7 +37,7 @@ MANIFEST = {
     "note": "Trusted: TLC, the font builders of the harness, the JSON trace encoding. Only simple lookups (GSUB 1, 4, "
             "GPOS 2, no flags) occur: the lookup engine is C06/C07. The property does not say which language system "
             "a tag selects: any is accepted, but it must be one (same answer on every call, in every process). "
-            "minimum+override kern subtables and switching off the synthetic liga feature: both readings accepted. "
+            "minimum+override kern subtables (bounded from below / replaced) and switching off the synthetic liga feature: either reading is accepted, but one reading for the whole run. "
             "Fixed-pitch files without GSUB are not generated.",
     "technique": "TLA+ model checking (TLC) of LayoutPipe.tla + trace validation of recorded FindLookups / "
                  "NewLayouter / Layout calls against LayoutPipeTrace.tla",
@@ -102,7 +102,9 @@ def _model_check(ctx):
     runs = [
         ("XL", "LayoutPipeXL.cfg",
          [("PlanMenu <- XLPlanMenu\n", "PlanMenu <- XLPlanMenuQ\n"), ("ReqPool <- XLReqPool\n", "ReqPool <- XLReqPoolQ\n"),
-          ("SwMenuG <- XLSwMenuG\n", "SwMenuG <- XLSwMenuGQ\n"), ("Chars <- XLChars\n", "Chars <- XLCharsQ\n")] if q else [],
+          ("SwMenuG <- XLSwMenuG\n", "SwMenuG <- XLSwMenuGQ\n"), ("Chars <- XLChars\n", "Chars <- XLCharsQ\n"),
+          ("GsubMenu <- XLGsubMenu\n", "GsubMenu <- XLGsubMenuQ\n"), ("GposMenu <- XLGposMenu\n", "GposMenu <- XLGposMenuQ\n"),
+          ("LkMenu <- XLLkMenu\n", "LkMenu <- XLLkMenuQ\n")] if q else [],
          "layout pipeline, all fonts of the small menus"),
         ("XF", "LayoutPipeXF.cfg",
          [("FeatTagsG <- XFFeatTags\n", "FeatTagsG <- XFFeatTagsQ\n")] if q
@@ -290,10 +292,12 @@ def _intended(ctx, trace):
 def run(ctx):
     _lock_subdir(ctx)
     ctx.assumptions += [
-        "only simple lookups (GSUB single/ligature, GPOS pair adjustment, lookup flags 0); the lookup engine is C06/C07",
+        "only simple lookups (GSUB single/multiple/ligature, GPOS single/pair adjustment, lookup flags 0); the lookup engine is "
+        "C06/C07; a multiple substitution leaves the text on the first replacement glyph (DESIGN.md appendix A)",
         "the property does not say which language system a request tag selects: every choice is accepted, but it must "
         "be the same for every call with that tag (in-process, new layouters, fresh processes)",
-        "minimum+override kern subtables: both readings accepted; the synthetic liga feature of a font without GSUB may "
+        "minimum+override kern subtables: the OpenType text admits 'bounded from below' and 'replaced'; either is accepted "
+        "but one reading must explain every pair of every file of a run; the synthetic liga feature of a font without GSUB may "
         "be required or optional; fixed-pitch files without GSUB are outside the property and not generated",
         "full-Unicode cmap subtables (3,10)/(0,4) carry one mapping, BMP subtables (3,1)/(0,3) another: only "
         "'full Unicode before BMP' is demanded of GetBest",
@@ -353,6 +357,13 @@ def _run_cases(ctx, binp, gen):
         ctx.run([binp, "run", cp, tp], timeout=1800)
         files.append((tp, "LayoutPipeTrace: TLC-generated %s cases" % kind))
         ctx.sample({"tlc_case_" + kind: gen[kind][0]})
+    # the fixed boundary cases of every run (lengths 0/1/2, shrinking and growing GSUB, GPOS single
+    # adjustment, minimum+override kern values below and above the accumulated value)
+    cp = os.path.join(d, "directed.ndjson")
+    ctx.run([binp, "directed", "0", cp])
+    tp = os.path.join(d, "trace-directed.ndjson")
+    ctx.run([binp, "run", cp, tp], timeout=1800)
+    files.append((tp, "LayoutPipeTrace: directed boundary cases"))
     nrand = ctx.pick(90, 1500)
     chunk = 300
     k = 0
